@@ -9,7 +9,7 @@ from ..algebra import Extractor, Rat, Unsupported
 from ..cfg import CFG
 from ..core import Ctx
 from ..model import body_stmts, canon, dotted, kwarg, norm, walk_no_nested
-from .common import assigned_value, cmp_other, enclosing, is_cmp, prog, resolve_local, stores_to
+from .common import assigned_value, cmp_other, enclosing, is_cmp, pnorm, prog, resolve_local, stores_to
 
 CG = "Continuum.compute_gamma"
 JOBS = {"_compute_best_alignment_job": "get_best_alignment", "_compute_soft_alignment_job": "get_best_soft_alignment",
@@ -89,13 +89,13 @@ def run(ctx: Ctx):
         dp, cp = j.params[0], j.params[1]
         rets = [r for r in walk_no_nested(j.node) if isinstance(r, ast.Return)]
         if jn != "_compute_fast_alignment_job":
-            ok = len(rets) == 1 and norm(rets[0].value) == f"{cp}.{meth}({dp})"
+            ok = len(rets) == 1 and pnorm(M, rets[0].value) == f"{cp}.{meth}({dp})"
             ctx.check(ok, "R-C05-1", j, rets[0] if rets else None, f"{jn} computes {meth}(dissimilarity) of the continuum it is given", key=f"job:{jn}")
         else:
             ifs = [i for i in walk_no_nested(j.node) if isinstance(i, ast.If)]
             ok = len(ifs) == 1 and norm(ifs[0].test) in (f"{cp}.best_window_size == np.inf", f"np.isinf({cp}.best_window_size)") and \
-                len(ifs[0].body) == 1 and isinstance(ifs[0].body[0], ast.Return) and norm(ifs[0].body[0].value) == f"{cp}.get_best_alignment({dp})" and \
-                any(norm(r.value) == f"{cp}.get_fast_alignment({dp}, {cp}.best_window_size)" for r in rets)
+                len(ifs[0].body) == 1 and isinstance(ifs[0].body[0], ast.Return) and pnorm(M, ifs[0].body[0].value) == f"{cp}.get_best_alignment({dp})" and \
+                any(pnorm(M, r.value) == f"{cp}.get_fast_alignment({dp}, {cp}.best_window_size)" for r in rets)
             ctx.check(ok, "R-C05-1", j, ifs[0] if ifs else None, "fast job: exact algorithm iff the window size is the 'disadvantageous' sentinel, else windowed with that size",
                       key=f"job:{jn}")
     mb = [c for c in walk_no_nested(f.node) if isinstance(c, ast.Call) and norm(c.func) == f"{sn}.measure_best_window_size"]
